@@ -228,6 +228,8 @@ def _replay_subprocess(path):
 
 def cmd_check(pid, tier, seed, jobs):
     t_start = time.time()
+    if tier == "thorough":
+        os.environ.setdefault("VERIF_XCHECK", "1")      # FP shape lemmas are re-discharged with cvc5 (second opinion)
     _setup_paths()
     logging.disable(logging.CRITICAL)
     src_root = _import_repo()
@@ -288,6 +290,14 @@ def cmd_check(pid, tier, seed, jobs):
     violations = []   # (params, label, assignment, detail)
     known_hits = {}
     samples = []
+    fp_all = {"proved": fplemma.STATS["proved"], "failed": fplemma.STATS["failed"], "shapes": list(fplemma.STATS["shapes"]),
+              "xcheck": list(fplemma.STATS.get("xcheck", [])), "disagreements": list(fplemma.STATS.get("disagreements", []))}
+    for r in results:
+        for k in ("proved", "failed"):
+            fp_all[k] += r.fp[k]
+        fp_all["shapes"].extend(r.fp["shapes"])
+        fp_all["xcheck"].extend(r.fp["xcheck"])
+        fp_all["disagreements"].extend(r.fp["disagreements"])
     for r in results:
         total.add(r.stats)
         for k, v in r.reached.items():
@@ -386,6 +396,10 @@ def cmd_check(pid, tier, seed, jobs):
         problems.append(f"{traces_bad} sampled path(s) gave a different observable trace on the stock loop: {json.dumps(trace_notes)[:1500]}")
         exit_code = 3
 
+    if fp_all["disagreements"] and exit_code == 0:
+        problems.append(f"cvc5 disagrees with z3 on an FP shape lemma: {fp_all['disagreements'][:2]}")
+        exit_code = 2
+
     # 7. evidence
     wall = time.time() - t_start
     exhaustive = exit_code in (0, 1) and all(r.exhausted for r in results) and not bad_status
@@ -423,7 +437,9 @@ def cmd_check(pid, tier, seed, jobs):
             "solver": {"name": "z3", "version": z3.get_version_string(), "queries": total.solver_calls,
                        "seconds": round(total.solver_s, 2), "unknown": total.unknown,
                        "fp_obligation_queries": total.fp_queries,
-                       "fp_shape_lemmas": {"proved": fplemma.STATS["proved"], "failed": fplemma.STATS["failed"]}},
+                       "fp_shape_lemmas": {"proved": fp_all["proved"], "failed": fp_all["failed"], "shapes": fp_all["shapes"][:12]}},
+            "cross_solver": {"solver": "cvc5 (python wheel)", "scope": "FP shape lemmas, thorough tier only",
+                             "results": fp_all["xcheck"][:40], "disagreements": fp_all["disagreements"][:5]},
             "lemmas": [{k: _jsonable(v) for k, v in lr.items() if k != "assignment"} for lr in lemma_results],
             "selftest": {k: list(v) if isinstance(v, tuple) else v for k, v in st.items()},
             "known_findings_open": sorted(known_open),
